@@ -79,8 +79,9 @@ def r4_handle_ack(ctx, fam):
     S = SERVER[fam]
     f = m.method(S, '_handle_ack')
     construct = S + '._handle_ack'
-    if f.params[1:] != ['eio_sid', 'namespace', 'id', 'data']:
+    if len(f.params[1:]) != 4:
         raise AnalysisError(construct + ' signature changed')
+    eio_p, ns_p, id_p, data_p = f.params[1:]
     run = run_function(f, m)
     n = 0
     for p in run.paths:
@@ -92,8 +93,8 @@ def r4_handle_ack(ctx, fam):
         for e in tc:
             n += 1
             a = [U(run.expand(x)) for x in e.expr.args]
-            want = ["self.manager.sid_from_eio_sid(eio_sid, namespace or "
-                    "'/')", 'id', 'data']
+            want = ["self.manager.sid_from_eio_sid(%s, %s or '/')" % (
+                eio_p, ns_p), id_p, data_p]
             ctx.check(a == want and e.recv() == 'self.manager', construct,
                       'callback table keyed by the sid of (own transport, '
                       'packet namespace) and the packet\'s own id',
